@@ -1,9 +1,10 @@
 \* C12 quick: the code as pinned; 186 offsets x 47 values x 3 bases, all B for each
 CONSTANTS
+  FixedChannelSelect = TRUE
   FixedWindowRaw = FALSE
   FixedWatchdogRestart = FALSE
   ValMode = 1
   NBases = 3
 SPECIFICATION Spec
-INVARIANTS TypeOK ReadBack NonAliasing HiddenFrame ReadPurity PathsAgree ChannelIndependent
+INVARIANTS TypeOK ReadBack NonAliasing HiddenFrame ReadPurity PathsAgree ChannelIndependent WindowReachable
 CHECK_DEADLOCK FALSE
